@@ -5,6 +5,7 @@ import FitProps.C18
 import FitModel.FitFormat
 import FitProps.C02ChainLemmas
 import FitProps.C02IntegrityLemmas
+import FitProps.C02ReferenceLemmas
 /-!
 # C02 — Successful encodes are well-formed, self-consistent FIT streams
 
@@ -273,6 +274,21 @@ theorem C02_integrity_accepts_as_built (o : Opts) (fits : List (Hdr × List WMsg
   rw [← Fit.C04.C04_check_eq_reference_as_built _ (encodeChain_bytes o fits hall hbytes),
     C02_integrity_accepts o fits hne hall]
   rfl
+
+/-- … and for 14-byte headers (the default) in terms of the integrity RULES THEMSELVES: the declarative reference of
+property C04 (`IntegritySpec.reference`: header size and tag, non-zero data size, header CRC, file CRC over the WHOLE
+sequence from its first byte, nothing but valid sequences to the end) judges every successful encode of a non-empty
+chain VALID with one sequence per FIT value. (With a 12-byte header it does not — the example below, KF-C02-legacy-crc.) -/
+theorem C02_reference_accepts (o : Opts) (fits : List (Hdr × List WMsg)) (hne : fits ≠ [])
+    (hall : ∀ f ∈ fits, FitOK o f.1 f.2) (hbytes : ∀ f ∈ fits, C02_ByteOK o f) (h14 : ∀ f ∈ fits, f.1.size = 14) :
+    IntegritySpec.reference (encodeChain o fits) = .ok fits.length := by
+  have := refLoop_encodeChain o fits hall (fun f hf => ⟨(hbytes f hf).protoVer, (hbytes f hf).recs⟩) h14
+    ((encodeChain o fits).length + 1) 0 (by omega) (by
+      cases fits with
+      | nil => exact absurd rfl hne
+      | cons _ _ => simp)
+  unfold IntegritySpec.reference
+  rw [this, Nat.zero_add]
 
 /-- non-vacuity, and the same by evaluation: a chain mixing a 14- and a 12-byte header -/
 example :
